@@ -145,6 +145,35 @@ def run(fx, chk, tier):
                         if uses and all(pp and pp[-1].get("k") == "try" for _x, pp in uses):
                             for c_ in clos:
                                 closure_ok[c_["def"]] = "every item of the mapped iterator is the operand of ?"
+    #   * bound to a local (`let mut put = |x| -> Result<()> {..};`) that is only ever called, every call being the operand
+    #     of `?` (or the function's tail value)
+    for fid_, fn_ in sorted(fx.fns.items()):
+        root_ = hirq.body_root(fn_) if not fn_.get("derived") else None
+        if root_ is None:
+            continue
+        tails_ = None
+        for n_, ps_ in hirq.walk(root_):
+            if n_.get("k") != "let" or n_.get("pat", {}).get("k") != "bind" or n_.get("init", {}).get("k") != "closure" or n_["init"].get("def") not in iof:
+                continue
+            lid_ = n_["pat"].get("lid")
+            uses = [(x, pp) for x, pp in hirq.walk(root_) if x.get("k") == "path" and x.get("res") == "local" and x.get("lid") == lid_]
+            good = bool(uses)
+            for x, pp in uses:
+                call_ = pp[-1] if pp else None
+                if call_ is None or call_.get("k") != "call" or call_.get("f") is not x:
+                    good = False
+                    break
+                outer = pp[-2] if len(pp) >= 2 else None
+                if outer is not None and outer.get("k") == "try":
+                    continue
+                if tails_ is None:
+                    tails_ = tail_nodes(root_)
+                if id(call_) in tails_:
+                    continue
+                good = False
+                break
+            if good:
+                closure_ok[n_["init"]["def"]] = "bound to a local that is only called, every call under `?`"
     # ---- R1b
     for fid in sorted(iof):
         fn = fx.fns[fid]
